@@ -8,7 +8,7 @@ CHECKS = {
   note="Trusted base: the independent G_conf grammar (harness/src/gen.rs, model.rs, alpide.rs) encodes the documented protocol; CLI = repository release profile without LTO.",
   technique="property-based testing: grammar-based generation (proptest-driven choice tape) + validity oracle (zero errors), delta-debugging shrinker"),
  "C02": dict(
-  text="Fault-catalogue testing on the real CLI: a conforming generated stream is altered so that exactly one documented rule is broken (44 catalogue entries with boundary values, applied at generated positions on the spec so that sizes and neighbouring words stay consistent); in every mode where the rule is documented as active an error of the rule's code family must be located at the layout-map offset of the offending RDH / word and the exit status must be the configured -E value; purely stateful entries must leave `check sanity*` completely silent.",
+  text="Fault-catalogue testing on the real CLI: a conforming generated stream is altered so that exactly one documented rule is broken (48 catalogue entries with boundary values, applied at generated positions on the spec so that sizes and neighbouring words stay consistent; for sanity and reserved-bit rules also twice in one stream; a share of the runs with options that must not matter: verbosity, -d, -e 0, a custom-checks file that agrees with the data); in every mode where the rule is documented as active an error of the rule's code family must be located at the layout-map offset of the offending RDH / word and the exit status must be the configured -E value; purely stateful entries must leave `check sanity*` completely silent.",
   note="Trusted base: the catalogue in harness/src/props/c02.rs (rule -> code family -> active modes, from doc/checks_list.md and README); follow-on errors elsewhere are allowed; domain exclusions listed in the evidence assumptions.",
   technique="property-based testing with a fault catalogue (mutation of generated conforming specs) and a located-error oracle"),
  "C03": dict(
@@ -16,7 +16,7 @@ CHECKS = {
   note="Trusted base: independent RDH decoder / chain walker / filter predicate in harness/src/model.rs; domain = well-framed inputs whose first RDH0 passes the documented pre-check.",
   technique="property-based testing: differential oracle (independent reference walker) over generated well-framed streams"),
  "C05": dict(
-  text="Differential over schedules: each generated multi-link erroneous input is executed K times on the hook-enabled CLI under seeded schedule perturbation at every channel hand-off (slow validators / collector / dispatcher, random yields and sleeps); error messages and their order, report, statistics file bytes and exit status must be identical across runs. The number of distinct pre-sort arrival orders actually reached is measured with the trace hook and only cases with >= 2 count as non-trivial.",
+  text="Differential over schedules: each generated multi-link erroneous input is executed K times on the hook-enabled CLI under seeded schedule perturbation at every channel hand-off (slow validators / collector / dispatcher, random yields and sleeps); error messages and their order, report, statistics file bytes and exit status must be identical across runs (inputs include exact multiples of the 100-packet batch, inputs ending inside the last payload, a check combined with filter and -o, and more than 65535 messages from several links). The number of distinct pre-sort arrival orders actually reached is measured with the trace hook and only cases with >= 2 count as non-trivial.",
   note="Trusted base: the perturbation hook (feature `verif`) only adds sleeps/yields; schedules are sampled, not enumerated, so a race outside the perturbed hand-offs can be missed (DESIGN.md section 7).",
   technique="property-based testing with fault/schedule injection: metamorphic relation (same input, different schedules => identical observables), schedule diversity measured by trace hook"),
  "C06": dict(
@@ -24,11 +24,11 @@ CHECKS = {
   note="Trusted base: the in-process sequential pass uses the library's own validator (the property's last clause defines exactly this comparison); independent walker for grouping and offset normalisation; exclusions: a link's first RDH0 / framing uncorrupted, layout agrees with format, interleavings whose first packet fails the documented pre-check are skipped (counted).",
   technique="property-based testing: metamorphic relations over interleavings + differential CLI (multi-threaded dispatch) vs single sequential pass"),
  "C07": dict(
-  text="Round-trip oracle against the input: for generated well-framed streams with arbitrary/corrupted word-structured payloads, every error message's leading offset must be an RDH start or word start of the independently walked chain, quoted 10-byte dumps must equal the input bytes at that offset, `current :` RDH rows must equal an independent decode, frame messages must end on a TDT; all five check modes, all filter kinds, muted and unmuted, stderr and statistics file.",
+  text="Round-trip oracle against the input: for generated well-framed streams with arbitrary/corrupted word-structured payloads, every error message's leading offset must be an RDH start or word start of the independently walked chain, quoted 10-byte dumps must equal the input bytes at that offset, `current :` and `previous:` RDH rows and header fields quoted in the message text must equal an independent decode, frame messages must end on a TDT; all five check modes, all filter kinds, muted and unmuted, stderr and statistics file.",
   note="Trusted base: independent chain walker and word-offset arithmetic; domain restricted (by the statement) to payload layouts that agree with the header's data format.",
   technique="property-based testing: round-trip oracle (re-read the input at the reported offset) over generated and mutated streams"),
  "C08": dict(
-  text="Reference-filter testing on the real CLI: for generated well-framed streams the tool is run once per distinct link / FEE / layer-stave value (plus absent values) to a file, to explicit and to default stdout, from file and pipe; each output must equal the concatenation of exactly the matching packets (independent walker and predicate), the outputs must cover every packet exactly once, each output must walk as a chain, re-filtering must be idempotent and rdhs_filtered must equal the match count.",
+  text="Reference-filter testing on the real CLI: for generated well-framed streams the tool is run once per distinct link / FEE / layer-stave value (plus absent values) to a file, to explicit and to default stdout, from file and pipe; each output must equal the concatenation of exactly the matching packets (independent walker and predicate), the outputs must cover every packet exactly once, each output must walk as a chain, re-filtering must be idempotent and rdhs_filtered must equal the match count; destination files that exist beforehand, one odd header-size byte, and one stream of more than 2^20 matching packets (the writer's buffer) are included.",
   note="Trusted base: independent walker and filter predicates (mask 0x703F for layer/stave); every packet's RDH0 passes the pre-check so that any packet may start a derived file.",
   technique="property-based testing: differential against a reference filter + algebraic laws (partition, idempotence) over generated streams"),
  "C09": dict(
@@ -64,7 +64,7 @@ CHECKS = {
   note="Trusted base: stderr/stats/report parsers of the harness; the exit-status oracle relates observables of the same run, with the classes clean / wrong custom check known by construction.",
   technique="property-based testing: reference contract + metamorphic relations between runs with and without display options"),
  "C17": dict(
-  text="Fault-schedule injection on the real CLI: SIGINT/SIGTERM at delays drawn over the measured run time, stdout closed after N bytes, error cap, mid-stream fatal error; crossed with modes, file/pipe input, schedule perturbation (slow validator / collector / writer so that the bounded queues fill) and input sizes up to 8 MB. Oracle: the process exits by itself within the watchdog with all threads joined, no panic, no terminating signal, exit in {0,1,n}; a partial output file is a whole-packet prefix of the expected filtered output. The fraction of stops that provably landed mid-run is measured.",
+  text="Fault-schedule injection on the real CLI: SIGINT/SIGTERM at delays drawn over the measured run time, stdout closed after N bytes, error cap, mid-stream fatal error; crossed with modes, file/pipe input, schedule perturbation (slow validator / collector / writer so that the bounded queues fill) and input sizes up to 8 MB. Oracle: the process exits by itself within the watchdog with all threads joined, no panic, no terminating signal, exit in {0,1,n}; a partial output file is a whole-packet prefix of the expected filtered output. The fraction of stops that provably landed mid-run is measured. Two further phases: one signal after the error cap while stdin is held open (orderly exit status), and a model of the shared stop flag over generated message histories of the statistics controller (in-process).",
   note="Trusted base: watchdog rule (3 reproductions), perturbation hook; timing is sampled not enumerated. A signal delivered before the tool installed its handler terminates the process by default disposition and is excluded (counted).",
   technique="property-based testing with fault injection (signals, closed pipes, error cap, fatal input) and schedule perturbation; validity oracle on the process outcome and on partial output"),
  "C19": dict(
